@@ -49,6 +49,9 @@ func (g *keyGen) openTarget() string {
 	switch t.Weighted(4, 4, 3, 1, 1, 1) {
 	case 0:
 		a := tn.Actors[t.Draw(len(tn.Actors))]
+		if t.Chance(1, 3) {
+			return "!" + a.User + "@" + a.Host // the group spelling of a handle
+		}
 		return "@" + a.User + "@" + a.Host
 	case 1:
 		return tn.Posts[t.Draw(len(tn.Posts))].ID
@@ -116,6 +119,10 @@ func (g *keyGen) next() []byte {
 		return []byte{"opb"[t.Draw(3)]}
 	case 7:
 		d := fmt.Sprintf("%d", 1+t.Draw(3))
+		if t.Chance(1, 4) {
+			// any link the item may have, also written the way people pad numbers
+			d = fmt.Sprintf([]string{"%d", "0%d", "00%d", "%d"}[t.Draw(4)], 1+t.Draw(13))
+		}
 		return []byte(d + string([]byte{'.', '.', '\r', '\r', 27, 127}[t.Draw(6)]))
 	case 8:
 		if t.Chance(1, 3) {
